@@ -26,8 +26,6 @@ var contextSpec = map[string][]string{
 	"NotifyNewObject":  {"if($isRealObject){++($_this.CurrentEntry.CurrentObjectCount); if($_this.CurrentEntry.ExpectedObjectCount>=0&&$_this.CurrentEntry.CurrentObjectCount>$_this.CurrentEntry.ExpectedObjectCount){reject}}; ++($_this.objectCount); if($_this.objectCount>$_this.config.Rules.MaxObjectCount){reject}"},
 	"ChangeRule":       {"set($_this.CurrentEntry.Rule=$rule)"},
 	"UnstackRule":      {"def($v1=$_this.CurrentEntry.Rule); set($_this.CurrentEntry=$_this.stack[?pure:len($_this.stack)-1]); set($_this.stack=$_this.stack[:?pure:len($_this.stack)-1]); return"},
-	"Reset": {"TODO"},
-	"Init":  {"TODO"},
 	// markers / references (C13)
 	"BeginMarkerKeyable":    {"set($_this.markerID=string($id)); ctx.stackRule(markedObjectKeyableRule,$dataType,noObjectCount); set($_this.CurrentEntry.MarkerID=$_this.markerID)"},
 	"BeginMarkerAnyType":    {"set($_this.markerID=string($id)); ctx.stackRule(markedObjectAnyTypeRule,$dataType,noObjectCount); set($_this.CurrentEntry.MarkerID=$_this.markerID)"},
